@@ -153,18 +153,18 @@ Proof.
 Qed.
 
 (* STOR / APPE: the handler has checked is_dir(parent).  Agreement for 'wb', for 'ab' when the
-   script only writes, for 'r+b' when the file exists (r+b on a missing file is finding F06). *)
+   script only writes, for 'r+b' (on a missing file both fail since the repair of F06). *)
 Lemma open_write_agree t pp x es m s :
   lookup pp t = Some (Dir es) ->
   Forall seek_write s ->
-  (m = WB \/ (m = AB /\ Forall is_write s) \/ (m = RPB /\ assoc x es <> None)) ->
+  (m = WB \/ (m = AB /\ Forall is_write s) \/ m = RPB) ->
   step_agree (m_open t (pp ++ [x]) m s) (p_open t (pp ++ [x]) m s).
 Proof.
   intros Hpp Fs Hm.
   assert (Hres : resolve pp t = Found (Dir es)) by (apply resolve_found, Hpp).
   unfold m_open, p_open, get_node, resolve_parent.
   rewrite (lookup_snoc_dir _ x _ _ Hpp), unsnoc_snoc, Hpp, Hres.
-  destruct Hm as [->|[[-> Fw]|[-> Hex]]].
+  destruct Hm as [->|[[-> Fw]| ->]].
   - (* wb *)
     destruct (assoc x es) as [[d|es']|] eqn:E.
     + rewrite (run_hops_agree true true false true false EValue EINVAL s [] 0 (seek_write_fits _ _ _ Fs)).
@@ -178,8 +178,10 @@ Proof.
     + split; cbn; auto.
     + change 0 with (zlen []).
       rewrite (run_hops_append true false EValue EINVAL s [] Fw). apply step_agree_refl.
-  - (* r+b on an existing path *)
-    destruct (assoc x es) as [[d|es']|] eqn:E; [| |congruence].
+  - (* r+b *)
+    destruct (assoc x es) as [[d|es']|] eqn:E;
+      [| |destruct (proj2 (resolve_fail (pp ++ [x]) t)) as [e He];
+          [rewrite (lookup_snoc_dir _ x _ _ Hpp); exact E|rewrite He; split; cbn; auto]].
     + assert (Hr : resolve (pp ++ [x]) t = Found (File d))
         by (apply resolve_found; rewrite (lookup_snoc_dir _ x _ _ Hpp); exact E).
       rewrite Hr.
@@ -205,29 +207,6 @@ Proof.
 Qed.
 
 (* ---- 5. rename as RNTO issues it ---- *)
-Lemma pop_loop_notin x es : ~ In x (map fst es) -> pop_loop x es = es.
-Proof.
-  induction es as [|[n c] r IH]; cbn; [reflexivity|]. intro H.
-  destruct (name_eqb n x) eqn:E; [apply name_eqb_eq in E; subst; exfalso; apply H; left; reflexivity|].
-  rewrite IH; [reflexivity|]. intro Hi; apply H; right; exact Hi.
-Qed.
-
-Lemma pop_loop_nodup x es : NoDup (map fst es) -> pop_loop x es = remove_first x es.
-Proof.
-  induction es as [|[n c] r IH]; cbn; [reflexivity|]. intro H. inversion H as [|? ? Hn Hr]; subst.
-  destruct (name_eqb n x) eqn:E.
-  - apply name_eqb_eq in E. subst. destruct r as [|e r']; [reflexivity|].
-    f_equal. apply pop_loop_notin. intro Hi. apply Hn. right. exact Hi.
-  - rewrite (IH Hr). reflexivity.
-Qed.
-
-Lemma upd_ext_at p f g t n : lookup p t = Some n -> f n = g n -> upd p f t = upd p g t.
-Proof.
-  revert t. induction p as [|x p IH]; intro t; cbn; [intros H E; inversion H; subst; exact E|].
-  destruct t as [d|es]; [reflexivity|]. destruct (assoc x es) as [c|]; [|reflexivity].
-  intros H E. rewrite (IH c H E). reflexivity.
-Qed.
-
 Lemma is_prefix_snoc a bp bn :
   is_prefix a (bp ++ [bn]) = is_prefix a bp || path_eqb a (bp ++ [bn]).
 Proof.
@@ -243,56 +222,40 @@ Proof.
   destruct (lookup b t); congruence.
 Qed.
 
-(* the two shapes of RNTO on which the backends differ although the guards pass (F07) *)
-Definition rename_bad (t : node) (a b : path) : bool :=
-  match lookup a t, unsnoc b with
-  | Some _, Some (bp, _) =>
-      match lookup bp t with
-      | Some (File _) => true                (* destination parent is a file *)
-      | Some (Dir _) => is_prefix a bp       (* destination inside the moved subtree *)
-      | None => false
-      end
-  | _, _ => false
-  end.
-
-(* RNTO: the handler has checked that the destination does not exist; source <> destination
-   (equal paths with a vanished source is finding F17) *)
+(* RNTO: the handler has checked that the destination does not exist.  Since the repair of
+   MemoryPathIO.rename (F07a, F07b, F17) no further condition is needed: source == destination,
+   a vanished source, a destination below a file or inside the source all fail on both. *)
 Lemma rename_agree t a b :
-  wf t -> a <> [] -> lookup b t = None -> path_eqb a b = false -> rename_bad t a b = false ->
+  a <> [] -> lookup b t = None ->
   step_agree (m_rename t a b) (p_rename t a b).
 Proof.
-  intros W Ha Hb Hab Hbad.
+  intros Ha Hb.
   destruct (unsnoc a) as [[ap an]|] eqn:Ea; [|apply unsnoc_none in Ea; contradiction].
   destruct (unsnoc b) as [[bp bn]|] eqn:Eb; [|apply unsnoc_none in Eb; subst; discriminate].
   apply unsnoc_spec in Ea. apply unsnoc_spec in Eb.
-  unfold m_rename, p_rename, get_node, rename_bad in *. rewrite Hab.
-  rewrite (proj2 (unsnoc_spec a ap an) Ea), (proj2 (unsnoc_spec b bp bn) Eb) in *.
+  unfold m_rename, p_rename, get_node.
+  rewrite (proj2 (unsnoc_spec a ap an) Ea), (proj2 (unsnoc_spec b bp bn) Eb).
   unfold resolve_parent.
   destruct (lookup a t) as [sn|] eqn:La.
   - (* the source exists *)
+    destruct (path_eqb a b) eqn:Hab; [apply path_eqb_eq in Hab; congruence|].
     subst a. destruct (lookup_snoc_some _ _ _ _ La) as [ses [Lap Has]].
     rewrite (proj2 (resolve_found ap t (Dir ses)) Lap).
-    destruct (lookup bp t) as [[d|des]|] eqn:Lbp; [discriminate| |].
-    + rewrite (proj2 (resolve_found bp t (Dir des)) Lbp). rewrite Has, Hbad.
-      subst b. rewrite is_prefix_snoc, Hbad, Hab. cbn [orb].
-      destruct (is_prefix (bp ++ [bn]) (ap ++ [an])) eqn:Pba.
+    destruct (lookup bp t) as [[d|des]|] eqn:Lbp.
+    + rewrite (proj2 (resolve_found bp t (File d)) Lbp). split; cbn; auto.
+    + rewrite (proj2 (resolve_found bp t (Dir des)) Lbp). rewrite Has.
+      destruct (is_prefix (ap ++ [an]) b) eqn:Pab; [split; cbn; auto|].
+      destruct (is_prefix b (ap ++ [an])) eqn:Pba.
       { exfalso. eapply prefix_lookup in Pba; [apply Pba, Hb|rewrite La; discriminate]. }
-      assert (Hbn : assoc bn des = None) by (rewrite <- (lookup_snoc_dir _ bn _ _ Lbp); exact Hb).
-      rewrite Hbn.
-      assert (Hpop : upd ap (on_dir (pop_loop an)) t = upd ap (on_dir (remove_first an)) t).
-      { eapply upd_ext_at; [exact Lap|]. cbn. f_equal. apply pop_loop_nodup.
-        apply (wf_lookup _ _ _ W) in Lap. apply wf_dir in Lap. tauto. }
-      rewrite Hpop. destruct sn; split; cbn; auto.
+      assert (Hbn : assoc bn des = None) by (subst b; rewrite <- (lookup_snoc_dir _ bn _ _ Lbp); exact Hb).
+      rewrite Hbn. destruct sn; apply step_agree_refl.
     + destruct (proj2 (resolve_fail bp t) Lbp) as [e He]. rewrite He. split; cbn; auto.
   - (* the source is gone *)
-    destruct (lookup bp t) as [dp|] eqn:Lbp.
-    + destruct (resolve ap t) as [[d|ses]|e] eqn:Rap; try (split; cbn; auto; fail).
-      destruct (resolve bp t) as [[d|des]|e] eqn:Rbp; try (split; cbn; auto; fail).
-      assert (Has : assoc an ses = None).
-      { subst a. apply resolve_found in Rap. rewrite <- (lookup_snoc_dir _ an _ _ Rap). exact La. }
-      rewrite Has. split; cbn; auto.
-    + destruct (resolve ap t) as [[d|ses]|e] eqn:Rap; try (split; cbn; auto; fail).
-      destruct (proj2 (resolve_fail bp t) Lbp) as [e He]. rewrite He. split; cbn; auto.
+    destruct (resolve ap t) as [[d|ses]|e] eqn:Rap; try (split; cbn; auto; fail).
+    destruct (resolve bp t) as [[d|des]|e] eqn:Rbp; try (split; cbn; auto; fail).
+    assert (Has : assoc an ses = None).
+    { subst a. apply resolve_found in Rap. rewrite <- (lookup_snoc_dir _ an _ _ Rap). exact La. }
+    rewrite Has. split; cbn; auto.
 Qed.
 
 (* ---- 6. MKD: mkdir(parents=True) on a path that does not exist ---- *)
@@ -453,13 +416,13 @@ Proof.
   - (* unlink *)
     unfold m_unlink, get_node. destruct (lookup p t) as [[d|es]|]; try exact W. apply wf_remove, W.
   - (* rename *)
-    unfold m_rename, get_node. destruct (path_eqb a b); [exact W|].
+    unfold m_rename, get_node. destruct (lookup a t) as [sn|] eqn:La; [|exact W].
+    destruct (path_eqb a b); [exact W|].
     destruct (unsnoc a) as [[ap an]|]; [|exact W]. destruct (unsnoc b) as [[bp bn]|]; [|exact W].
-    destruct (lookup a t) as [sn|] eqn:La; [|exact W]. destruct (lookup bp t) as [dp|] eqn:Lbp; [|exact W].
-    assert (W1 : wf (upd ap (on_dir (pop_loop an)) t)).
+    destruct (lookup bp t) as [[d|des]|] eqn:Lbp; try exact W. destruct (is_prefix a b); [exact W|]. cbn [snd].
+    assert (W1 : wf (upd ap (on_dir (remove_first an)) t)).
     { apply wf_upd; [exact W|]. intros n _ Wn. destruct n as [d|es]; [exact Logic.I|]. cbn.
-      rewrite pop_loop_nodup by (apply wf_dir in Wn; tauto). apply wf_remove_first, Wn. }
-    destruct dp as [d|des]; [exact W1|]. destruct (is_prefix a bp); [exact W1|]. cbn [snd].
+      apply wf_remove_first, Wn. }
     apply wf_upd; [exact W1|]. intros n _ Wn. destruct n as [d|es]; [exact Logic.I|]. cbn.
     apply wf_put; [exact Wn|]. exact (wf_lookup _ _ _ W La).
   - (* open *)
@@ -483,32 +446,11 @@ Definition targets_root (c : cmd) : bool :=
   | _ => false
   end.
 
-(* F06: REST n (n > 0) + STOR/APPE to a missing file in an existing directory *)
-Definition rest_missing (t : node) (p : path) (restart : Z) : bool :=
-  (0 <? restart) &&
-  match unsnoc p with
-  | Some (pp, _) => m_is_dir t pp && negb (m_exists t p)
-  | None => false
-  end.
-
-(* F17 (same path, source gone) and F07 (below a file / into the own subtree), when the
-   destination guard passes *)
-Definition rnto_bad (t : node) (a b : path) : bool :=
-  negb (m_exists t b) && (path_eqb a b || rename_bad t a b).
-
-Definition shape_ok (st : option path * node) (c : cmd) : bool :=
-  negb (targets_root c) &&
-  match c with
-  | CStor p restart _ | CAppe p restart _ => negb (rest_missing (snd st) p restart)
-  | CRnto b => match fst st with Some a => negb (rnto_bad (snd st) a b) | None => true end
-  | _ => true
-  end.
-
-Fixpoint shapes_ok (st : option path * node) (cs : list cmd) : bool :=
-  match cs with
-  | [] => true
-  | c :: r => shape_ok st c && shapes_ok (snd (srv_step m_run st c)) r
-  end.
+(* the only carve-out left (it is the property's own): mutations aimed at the virtual root itself.
+   Before the repair of MemoryPathIO (F06, F07a, F07b, F17) the statement also had to exclude
+   REST n>0 + STOR/APPE to a missing file and three shapes of RNTO, decided on the reached state. *)
+Definition shape_ok (c : cmd) : bool := negb (targets_root c).
+Definition shapes_ok (cs : list cmd) : bool := forallb shape_ok cs.
 
 (* a failing command changes nothing *)
 Fixpoint inert_from (t : node) (l : list (reply * node)) : Prop :=
@@ -576,10 +518,10 @@ Proof.
 Qed.
 
 Lemma store_agree t p m restart blocks :
-  (m = WB \/ m = AB) -> rest_missing t p restart = false ->
+  (m = WB \/ m = AB) ->
   store m_run t p m restart blocks = store p_run t p m restart blocks.
 Proof.
-  intros Hm Hs. unfold store, rest_missing in *. destruct (unsnoc p) as [[pp x]|] eqn:E; [|reflexivity].
+  intros Hm. unfold store. destruct (unsnoc p) as [[pp x]|] eqn:E; [|reflexivity].
   apply unsnoc_spec in E. subst p. rewrite ask_is_dir_m, ask_is_dir_p.
   destruct (m_is_dir t pp) eqn:Hd; [|reflexivity]. destruct (m_is_dir_true _ _ Hd) as [es Hpp].
   cbn [m_run p_run]. apply store_match_agree. apply open_write_agree with (es := es); [exact Hpp| |].
@@ -587,8 +529,7 @@ Proof.
     + constructor; [cbn; lia|]. apply Forall_forall. intros h Hh. apply in_map_iff in Hh as [b [<- _]]. exact Logic.I.
     + apply Forall_forall. intros h Hh. apply in_map_iff in Hh as [b [<- _]]. exact Logic.I.
   - destruct (0 <? restart) eqn:R.
-    + right. right. split; [reflexivity|]. cbn in Hs. apply negb_false_iff in Hs. apply m_exists_true in Hs.
-      rewrite (lookup_snoc_dir _ x _ _ Hpp) in Hs. exact Hs.
+    + right. right. reflexivity.
     + assert (Fw : Forall is_write ([] ++ map HWrite blocks)).
       { apply Forall_forall. intros h Hh. apply in_map_iff in Hh as [b [<- _]]. exact Logic.I. }
       destruct Hm as [->| ->]; [left; reflexivity|right; left; split; [reflexivity|exact Fw]].
@@ -606,10 +547,17 @@ Proof.
   rewrite (open_read_agree t p d _ H (retr_script_ok restart)). reflexivity.
 Qed.
 
-Lemma srv_step_agree rf t c :
-  wf t -> shape_ok (rf, t) c = true -> srv_step m_run (rf, t) c = srv_step p_run (rf, t) c.
+Lemma rnto_step_agree t a p :
+  m_exists t p = false -> step_agree (m_rename t a p) (p_rename t a p).
 Proof.
-  intros W S. unfold shape_ok in S. apply andb_true_iff in S as [_ S]. cbn [fst snd] in S.
+  intros E. destruct a as [|a0 ar].
+  - unfold m_rename, p_rename, get_node. destruct p; [cbn in E; discriminate|]. cbn. split; cbn; auto.
+  - apply rename_agree; [discriminate|apply m_exists_false, E].
+Qed.
+
+(* one command: no hypothesis at all *)
+Lemma srv_step_agree rf t c : srv_step m_run (rf, t) c = srv_step p_run (rf, t) c.
+Proof.
   destruct c as [p|p|p|p|p|p restart blocks|p restart blocks|p restart|p|p|p|p];
     cbn [srv_step conds];
     rewrite ?ask_exists_m, ?ask_exists_p, ?ask_is_dir_m, ?ask_is_dir_p, ?ask_is_file_m, ?ask_is_file_p.
@@ -622,14 +570,9 @@ Proof.
   - (* RNFR *) reflexivity.
   - (* RNTO *) destruct rf as [a|]; [|reflexivity]. destruct (m_exists t p) eqn:E; [reflexivity|].
     unfold simple. cbn [m_run p_run].
-    assert (A : step_agree (m_rename t a p) (p_rename t a p)).
-    { destruct a as [|a0 ar].
-      - unfold m_rename, p_rename. destruct p; [cbn in E; discriminate|]. cbn. split; cbn; auto.
-      - unfold rnto_bad in S. rewrite E in S. cbn [negb andb] in S. apply negb_true_iff, orb_false_iff in S as [S1 S2].
-        apply rename_agree; [exact W|discriminate|apply m_exists_false, E|exact S1|exact S2]. }
-    rewrite (simple_agree _ _ 250 A). reflexivity.
-  - (* STOR *) rewrite (store_agree t p WB restart blocks); [reflexivity|left; reflexivity|apply negb_true_iff, S].
-  - (* APPE *) rewrite (store_agree t p AB restart blocks); [reflexivity|right; reflexivity|apply negb_true_iff, S].
+    rewrite (simple_agree _ _ 250 (rnto_step_agree t a p E)). reflexivity.
+  - (* STOR *) rewrite (store_agree t p WB restart blocks); [reflexivity|left; reflexivity].
+  - (* APPE *) rewrite (store_agree t p AB restart blocks); [reflexivity|right; reflexivity].
   - (* RETR *) destruct (m_exists t p); [|reflexivity]. destruct (m_is_file t p) eqn:F; [|reflexivity].
     destruct (m_is_file_true _ _ F) as [d Hd]. rewrite (retrieve_agree t p d restart Hd). reflexivity.
   - (* LIST *) destruct (m_exists t p); [|reflexivity]. rewrite listing_agree. reflexivity.
@@ -821,21 +764,9 @@ Proof.
   destruct v; try reflexivity. destruct (stat_entries run t p l); reflexivity.
 Qed.
 
-Lemma rnto_step_agree t a p :
-  wf t -> m_exists t p = false -> rnto_bad t a p = false ->
-  step_agree (m_rename t a p) (p_rename t a p).
-Proof.
-  intros W E S. destruct a as [|a0 ar].
-  - unfold m_rename, p_rename. destruct p; [cbn in E; discriminate|]. cbn. split; cbn; auto.
-  - unfold rnto_bad in S. rewrite E in S. cbn [negb andb] in S. apply orb_false_iff in S as [S1 S2].
-    apply rename_agree; [exact W|discriminate|apply m_exists_false, E|exact S1|exact S2].
-Qed.
-
 Lemma srv_step_inert rf t c :
-  wf t -> shape_ok (rf, t) c = true ->
   failing (fst (srv_step m_run (rf, t) c)) = true -> snd (snd (srv_step m_run (rf, t) c)) = t.
 Proof.
-  intros W S. unfold shape_ok in S. apply andb_true_iff in S as [_ S]. cbn [fst snd] in S.
   destruct c as [p|p|p|p|p|p restart blocks|p restart blocks|p restart|p|p|p|p];
     cbn [srv_step conds]; rewrite ?ask_exists_m, ?ask_is_dir_m, ?ask_is_file_m.
   - destruct (m_exists t p); [reflexivity|]. unfold simple. cbn [m_run].
@@ -852,7 +783,7 @@ Proof.
     + intros _. cbn [fst snd] in *. eapply He. reflexivity.
   - destruct (m_exists t p); reflexivity.
   - destruct rf as [a|]; [|reflexivity]. destruct (m_exists t p) eqn:E; [reflexivity|].
-    apply negb_true_iff in S. pose proof (rnto_step_agree t a p W E S) as [A1 A2].
+    pose proof (rnto_step_agree t a p E) as [A1 A2].
     unfold simple. cbn [m_run]. pose proof (p_rename_err t a p) as He.
     destruct (m_rename t a p) as [[v|e] t'], (p_rename t a p) as [[w|e'] t2]; cbn in A1, A2 |- *; try contradiction.
     + discriminate.
@@ -869,30 +800,38 @@ Proof.
 Qed.
 
 (* ---- the composed theorem ---- *)
-Theorem backends_agree_partial : forall cs rf t,
-  wf t -> shapes_ok (rf, t) cs = true ->
+(* every tree, every pending rename_from, every history: no hypothesis on the tree or the history is
+   needed for agreement and inertness themselves *)
+Theorem backends_agree_all : forall cs rf t,
   srv_run m_run (rf, t) cs = srv_run p_run (rf, t) cs
   /\ inert_from t (srv_run m_run (rf, t) cs)
   /\ inert_from t (srv_run p_run (rf, t) cs).
 Proof.
-  induction cs as [|c r IH]; intros rf t W S; [cbn; auto|].
-  cbn [shapes_ok] in S. apply andb_true_iff in S as [S1 S2].
-  pose proof (srv_step_agree rf t c W S1) as A.
-  pose proof (srv_step_wf rf t c W) as W'.
-  pose proof (srv_step_inert rf t c W S1) as I1.
+  induction cs as [|c r IH]; intros rf t; [cbn; auto|].
+  pose proof (srv_step_agree rf t c) as A.
+  pose proof (srv_step_inert rf t c) as I1.
   cbn [srv_run]. rewrite <- A.
   destruct (srv_step m_run (rf, t) c) as [rep [rf' t']]. cbn [fst snd] in *.
-  destruct (IH rf' t' W' S2) as [E [J1 J2]].
+  destruct (IH rf' t') as [E [J1 J2]].
   rewrite <- E. split; [reflexivity|]. split; cbn [inert_from]; (split; [exact I1|assumption]).
 Qed.
 
+(* the property as stated: histories without mutations aimed at the virtual root itself (for those the
+   models answer with the placeholder ERoot on both sides and say nothing about the real backends) *)
+Theorem backends_agree : forall cs rf t,
+  shapes_ok cs = true ->
+  srv_run m_run (rf, t) cs = srv_run p_run (rf, t) cs
+  /\ inert_from t (srv_run m_run (rf, t) cs)
+  /\ inert_from t (srv_run p_run (rf, t) cs).
+Proof. intros cs rf t _. apply backends_agree_all. Qed.
+
 Corollary backends_agree_abs : forall cs rf t,
-  wf t -> shapes_ok (rf, t) cs = true ->
+  shapes_ok cs = true ->
   map (fun x => (fst x, abs (snd x))) (srv_run m_run (rf, t) cs)
   = map (fun x => (fst x, abs (snd x))) (srv_run p_run (rf, t) cs).
-Proof. intros cs rf t W S. destruct (backends_agree_partial cs rf t W S) as [E _]. rewrite E. reflexivity. Qed.
+Proof. intros cs rf t S. destruct (backends_agree cs rf t S) as [E _]. rewrite E. reflexivity. Qed.
 
-(* ---- witnesses of the genuine divergences ---- *)
+(* ---- the former witnesses of the repaired divergences, now ordinary cases ---- *)
 Definition nd : name := [100]. Definition ne : name := [101]. Definition nf : name := [102].
 Definition ng : name := [103]. Definition nh : name := [104]. Definition nm : name := [109].
 Definition nx : name := [120].
@@ -915,63 +854,46 @@ Qed.
 Definition codes_of (l : list (reply * node)) : list (list Z) := map (fun x => fst (fst x)) l.
 Definition last_tree (t : node) (l : list (reply * node)) : node := last (map snd l) t.
 
-(* F06: REST 2; STOR /m  (m missing): memory 150/226 and the file appears, disk 150/451 unchanged *)
-Theorem rest_stor_missing_refuted :
-  exists t p n blocks,
-    wf t /\ shape_ok (None, t) (CStor p n blocks) = false /\
-    codes_of (srv_run m_run (None, t) [CStor p n blocks]) = [[150; 226]] /\
-    codes_of (srv_run p_run (None, t) [CStor p n blocks]) = [[150; 451]] /\
-    lookup p (last_tree t (srv_run m_run (None, t) [CStor p n blocks])) = Some (File [0; 0; 80; 81]) /\
-    last_tree t (srv_run p_run (None, t) [CStor p n blocks]) = t.
-Proof.
-  exists wt0, [nm], 2, [[80; 81]]. split; [exact wt0_wf|]. repeat split; vm_compute; reflexivity.
-Qed.
+(* The four histories that refuted the statement before MemoryPathIO was repaired (F06, F07a, F07b,
+   F17), kept as computed cases: both backends now give the file system's answer and change nothing.
+   (The harness replays the same four sessions on three real servers on every run.) *)
+Example former_F06_witness_agrees :      (* REST 2; STOR /m  (m missing) *)
+  codes_of (srv_run m_run (None, wt0) [CStor [nm] 2 [[80; 81]]]) = [[150; 451]] /\
+  srv_run m_run (None, wt0) [CStor [nm] 2 [[80; 81]]] = srv_run p_run (None, wt0) [CStor [nm] 2 [[80; 81]]] /\
+  last_tree wt0 (srv_run m_run (None, wt0) [CStor [nm] 2 [[80; 81]]]) = wt0.
+Proof. repeat split; vm_compute; reflexivity. Qed.
 
-(* F07a: RNFR /d; RNTO /d/e/h: memory 250 and /d is gone, disk 451 unchanged *)
-Theorem rename_into_self_refuted :
-  exists t a b,
-    wf t /\ shapes_ok (None, t) [CRnfr a; CRnto b] = false /\
-    codes_of (srv_run m_run (None, t) [CRnfr a; CRnto b]) = [[350]; [250]] /\
-    codes_of (srv_run p_run (None, t) [CRnfr a; CRnto b]) = [[350]; [451]] /\
-    lookup a (last_tree t (srv_run m_run (None, t) [CRnfr a; CRnto b])) = None /\
-    lookup b (last_tree t (srv_run m_run (None, t) [CRnfr a; CRnto b])) = None /\
-    last_tree t (srv_run p_run (None, t) [CRnfr a; CRnto b]) = t.
-Proof.
-  exists wt0, [nd], [nd; ne; nh]. split; [exact wt0_wf|]. repeat split; vm_compute; reflexivity.
-Qed.
+Example former_F07a_witness_agrees :     (* RNFR /d; RNTO /d/e/h *)
+  codes_of (srv_run m_run (None, wt0) [CRnfr [nd]; CRnto [nd; ne; nh]]) = [[350]; [451]] /\
+  srv_run m_run (None, wt0) [CRnfr [nd]; CRnto [nd; ne; nh]] = srv_run p_run (None, wt0) [CRnfr [nd]; CRnto [nd; ne; nh]] /\
+  last_tree wt0 (srv_run m_run (None, wt0) [CRnfr [nd]; CRnto [nd; ne; nh]]) = wt0.
+Proof. repeat split; vm_compute; reflexivity. Qed.
 
-(* F07b: RNFR /d; RNTO /g/x (g is a file): both answer 451, but memory has already removed /d *)
-Theorem rename_under_file_refuted :
-  exists t a b,
-    wf t /\ shapes_ok (None, t) [CRnfr a; CRnto b] = false /\
-    codes_of (srv_run m_run (None, t) [CRnfr a; CRnto b]) = [[350]; [451]] /\
-    codes_of (srv_run p_run (None, t) [CRnfr a; CRnto b]) = [[350]; [451]] /\
-    lookup a (last_tree t (srv_run m_run (None, t) [CRnfr a; CRnto b])) = None /\
-    last_tree t (srv_run p_run (None, t) [CRnfr a; CRnto b]) = t /\
-    ~ inert_from t (srv_run m_run (None, t) [CRnfr a; CRnto b]).
-Proof.
-  exists wt0, [nd], [ng; nx]. split; [exact wt0_wf|]. repeat split; try (vm_compute; reflexivity).
-  intro H. cbn [srv_run] in H. vm_compute in H. destruct H as [_ [H _]]. specialize (H eq_refl). discriminate.
-Qed.
+Example former_F07b_witness_agrees :     (* RNFR /d; RNTO /g/x  (g is a file) *)
+  codes_of (srv_run m_run (None, wt0) [CRnfr [nd]; CRnto [ng; nx]]) = [[350]; [451]] /\
+  srv_run m_run (None, wt0) [CRnfr [nd]; CRnto [ng; nx]] = srv_run p_run (None, wt0) [CRnfr [nd]; CRnto [ng; nx]] /\
+  last_tree wt0 (srv_run m_run (None, wt0) [CRnfr [nd]; CRnto [ng; nx]]) = wt0.
+Proof. repeat split; vm_compute; reflexivity. Qed.
 
-(* F17: RNFR /g; DELE /g; RNTO /g: memory 250 (source == destination is not checked), disk 451 *)
-Theorem rnto_same_path_refuted :
-  exists t a,
-    wf t /\ shapes_ok (None, t) [CRnfr a; CDele a; CRnto a] = false /\
-    codes_of (srv_run m_run (None, t) [CRnfr a; CDele a; CRnto a]) = [[350]; [250]; [250]] /\
-    codes_of (srv_run p_run (None, t) [CRnfr a; CDele a; CRnto a]) = [[350]; [250]; [451]].
-Proof.
-  exists wt0, [ng]. split; [exact wt0_wf|]. repeat split; vm_compute; reflexivity.
-Qed.
+Example former_F17_witness_agrees :      (* RNFR /g; DELE /g; RNTO /g *)
+  codes_of (srv_run m_run (None, wt0) [CRnfr [ng]; CDele [ng]; CRnto [ng]]) = [[350]; [250]; [451]] /\
+  srv_run m_run (None, wt0) [CRnfr [ng]; CDele [ng]; CRnto [ng]] = srv_run p_run (None, wt0) [CRnfr [ng]; CDele [ng]; CRnto [ng]].
+Proof. repeat split; vm_compute; reflexivity. Qed.
 
-(* the hypotheses of backends_agree_partial are satisfiable by a history that exercises every verb *)
-Example agree_nonvacuous :
-  wf wt0 /\
-  shapes_ok (None, wt0)
+(* the hypothesis of backends_agree is satisfiable by a history that exercises every verb (and the
+   history is not trivial: 226/250/257/350 and 451/503 replies all occur) *)
+Definition hist0 : list cmd :=
     [CMkd [nm; nx]; CStor [nm; nx; nf] 0 [[1; 2]; [3]]; CStor [nm; nx; nf] 1 [[9]]; CAppe [nm; nx; nf] 0 [[4]];
      CRetr [nm; nx; nf] 1; CRnfr [nm]; CRnto [nd; ne; nm]; CList [nd; ne]; CDele [nd; ne; nm; nx; nf];
-     CRmd [nd; ne; nm; nx]; CRmd [nd]; CCwd [nd]; CMlst [ng]; CRnfr [ng]; CRnto [nm; nx]] = true.
-Proof. split; [exact wt0_wf|vm_compute; reflexivity]. Qed.
+     CRmd [nd; ne; nm; nx]; CRmd [nd]; CCwd [nd]; CMlst [ng]; CRnfr [ng]; CRnto [nm; nx];
+     CStor [nh] 2 [[7]]; CRnfr [nd]; CRnto [nd; ne; nh]; CRnfr [nd]; CRnto [ng; nx]; CRnto [nd]].
+
+Example agree_nonvacuous :
+  wf wt0 /\ shapes_ok hist0 = true /\
+  codes_of (srv_run m_run (None, wt0) hist0) =
+    [[257]; [150; 226]; [150; 226]; [150; 226]; [150; 226]; [350]; [250]; [150; 226]; [250]; [250]; [451]; [250];
+     [250]; [350]; [451]; [150; 451]; [350]; [451]; [350]; [451]; [503]].
+Proof. split; [exact wt0_wf|]. split; vm_compute; reflexivity. Qed.
 
 (* ---- 9. API level: PathIO and AsyncPathIO ---- *)
 (* A row of Gen.PathIOTable.table: (class, method, decorator stack outermost first, signature,
